@@ -5,6 +5,7 @@ import (
 	"errors"
 	"fmt"
 	"strings"
+	"sync"
 	"sync/atomic"
 	"testing"
 	"time"
@@ -80,6 +81,7 @@ type runner struct {
 	cur            [4]*msg // current message per QoS 2 id (1..3)
 	unacked        []*q1   // QoS 1 messages sent and not acknowledged
 	msgs           map[string]*msg
+	mmu            sync.Mutex // msgs is read by callbacks of a client that is on its way out
 	nmsg           int
 	nbar           int
 	calls          int64
@@ -119,7 +121,9 @@ func (r *runner) callback(m *packet.Message, err error) error {
 		return nil
 	}
 	tag := string(m.Payload)
+	r.mmu.Lock()
 	mm := r.msgs[tag]
+	r.mmu.Unlock()
 	reject := false
 	if !strings.HasPrefix(tag, "barrier") && atomic.LoadInt32(&r.final) == 0 && len(r.c.Reject) > 0 {
 		k := atomic.AddInt64(&r.calls, 1) - 1
@@ -433,7 +437,9 @@ func (r *runner) expect(from int, what string, want func(packet.Generic) bool) (
 func (r *runner) newMsg(qos int) *msg {
 	r.nmsg++
 	m := &msg{tag: fmt.Sprintf("m%d-q%d", r.nmsg, qos), qos: qos}
+	r.mmu.Lock()
 	r.msgs[m.tag] = m
+	r.mmu.Unlock()
 	return m
 }
 
@@ -706,7 +712,13 @@ func runCase(c *Case) (*verdict, int64, *runner) {
 			}
 		}
 	}
+	r.mmu.Lock()
+	all := make([]*msg, 0, len(r.msgs))
 	for _, m := range r.msgs {
+		all = append(all, m)
+	}
+	r.mmu.Unlock()
+	for _, m := range all {
 		if m.forgiven {
 			if m.qos == 2 && !c.Early && atomic.LoadInt32(&m.accepted) > 1 {
 				return r.fail("qos2/not-exactly-once", "QoS 2 message %s was accepted by the application %d times", m.tag, m.accepted), 0, r
